@@ -170,6 +170,51 @@ Theorem C10_power_operator :
     = rmul (get R r0 x (idx3 (ssize s) (prodsz dpost) i1 j i3)) (get R r0 p (nth j pindex 0)).
 Proof. intros R r0 r1 radd rmul rsub ropp rdiv rinv F. exact (power_operator_get R r0 rmul). Qed.
 
+(* DiagonalOperator.apply of the power operator in ALL FOUR modes (real spectrum): TIMES and ADJOINT_TIMES
+   multiply mode (i1, j, i3) by p[pindex[j]], INVERSE_TIMES and ADJOINT_INVERSE_TIMES divide by it. *)
+Theorem C10_power_operator_modes :
+  forall (R : Type) (r0 r1 : R) (radd rmul rsub : R -> R -> R) (ropp : R -> R)
+         (rdiv : R -> R -> R) (rinv : R -> R),
+    field_theory r0 r1 radd rmul rsub ropp rdiv rinv eq ->
+    forall m dpre s dpost pindex nbin p x i1 j i3,
+    length pindex = ssize s -> length x = prodsz (dpre ++ s :: dpost) ->
+    i1 < prodsz dpre -> j < ssize s -> i3 < prodsz dpost ->
+    get R r0 (power_operator_apply R r0 rmul rdiv m (dpre ++ s :: dpost) (length dpre) pindex nbin p x)
+        (idx3 (ssize s) (prodsz dpost) i1 j i3)
+    = if inverse_mode m
+      then rdiv (get R r0 x (idx3 (ssize s) (prodsz dpost) i1 j i3)) (get R r0 p (nth j pindex 0))
+      else rmul (get R r0 x (idx3 (ssize s) (prodsz dpost) i1 j i3)) (get R r0 p (nth j pindex 0)).
+Proof. intros R r0 r1 radd rmul rsub ropp rdiv rinv F. exact (power_operator_apply_get R r0 rmul rdiv). Qed.
+
+(* The inverse modes really invert: for a non-inverse mode m (TIMES / ADJOINT_TIMES) and an inverse mode mi
+   (INVERSE_TIMES / ADJOINT_INVERSE_TIMES), applying mi after m and m after mi gives back the input on every
+   mode (i1, j, i3) whose bin carries a non-zero spectrum value -- on any product domain, for any binning. *)
+Theorem C10_power_operator_inverse :
+  forall (R : Type) (r0 r1 : R) (radd rmul rsub : R -> R -> R) (ropp : R -> R)
+         (rdiv : R -> R -> R) (rinv : R -> R),
+    field_theory r0 r1 radd rmul rsub ropp rdiv rinv eq ->
+    forall m mi dpre s dpost pindex nbin p x i1 j i3,
+    inverse_mode m = false -> inverse_mode mi = true ->
+    length pindex = ssize s -> length x = prodsz (dpre ++ s :: dpost) ->
+    i1 < prodsz dpre -> j < ssize s -> i3 < prodsz dpost ->
+    get R r0 p (nth j pindex 0) <> r0 ->
+    (get R r0 (power_operator_apply R r0 rmul rdiv mi (dpre ++ s :: dpost) (length dpre) pindex nbin p
+                (power_operator_apply R r0 rmul rdiv m (dpre ++ s :: dpost) (length dpre) pindex nbin p x))
+         (idx3 (ssize s) (prodsz dpost) i1 j i3)
+     = get R r0 x (idx3 (ssize s) (prodsz dpost) i1 j i3))
+    /\ (get R r0 (power_operator_apply R r0 rmul rdiv m (dpre ++ s :: dpost) (length dpre) pindex nbin p
+                (power_operator_apply R r0 rmul rdiv mi (dpre ++ s :: dpost) (length dpre) pindex nbin p x))
+         (idx3 (ssize s) (prodsz dpost) i1 j i3)
+     = get R r0 x (idx3 (ssize s) (prodsz dpost) i1 j i3)).
+Proof. intros R r0 r1 radd rmul rsub ropp rdiv rinv F. exact (power_operator_inverse R r0 r1 radd rmul rsub ropp rdiv rinv F). Qed.
+
+(* In TIMES mode the four-mode model is the model of C10_power_operator. *)
+Theorem C10_power_operator_apply_times :
+  forall (R : Type) (r0 : R) (rmul rdiv : R -> R -> R) d idx pindex nbin p x,
+    power_operator_apply R r0 rmul rdiv MTimes d idx pindex nbin p x
+    = power_operator_times R r0 rmul d idx pindex nbin p x.
+Proof. exact power_operator_apply_times. Qed.
+
 (* Histories: the answer to the i-th call of any sequence of power_analyze calls is the pure
    function of that call's arguments (domain, binning, phase flag, field) -- nothing that happened
    before (other binnings on the same domain, failed calls, retries) can influence it.  The
